@@ -164,6 +164,45 @@ fn stress(threads: usize, keys: u64, ops: usize, seed: u64) -> Result<(), String
             (seen, errs)
         }));
     }
+    // Phase B: every thread asks for the SAME not-yet-known key at the same instant (spin
+    // barrier per round) — first-time lookups racing each other must all get one address.
+    {
+        use std::sync::atomic::{AtomicUsize, Ordering};
+        let rounds = ops.max(1500);
+        let arrived = std::sync::Arc::new(AtomicUsize::new(0));
+        let maps_b = Maps::default();
+        let mut hs = Vec::new();
+        for t in 0..threads.max(4) {
+            let maps_b = maps_b.clone();
+            let arrived = arrived.clone();
+            let nthreads = threads.max(4);
+            hs.push(std::thread::spawn(move || {
+                let mut got = Vec::with_capacity(rounds);
+                for r in 0..rounds {
+                    arrived.fetch_add(1, Ordering::SeqCst);
+                    while arrived.load(Ordering::SeqCst) < (r + 1) * nthreads {
+                        std::hint::spin_loop();
+                    }
+                    let kind = [Kind::Mixed, Kind::Relay, Kind::Custom][r % 3];
+                    got.push(maps_b.get(kind, 1_000_000 + r as u64));
+                }
+                let _ = t;
+                got
+            }));
+        }
+        let all: Vec<Vec<SocketAddr>> = hs.into_iter().map(|h| h.join().expect("thread")).collect();
+        for r in 0..rounds {
+            let kind = [Kind::Mixed, Kind::Relay, Kind::Custom][r % 3];
+            let first = all[0][r];
+            if let Some(other) = all.iter().map(|v| v[r]).find(|a| *a != first) {
+                return Err(format!("racing first lookups of key {} got two addresses {first} and {other}", 1_000_000 + r));
+            }
+            let IpAddr::V6(v6) = first.ip() else { unreachable!() };
+            if maps_b.lookup(kind, v6) != Ok(Some(1_000_000 + r as u64)) || maps_b.get(kind, 1_000_000 + r as u64) != first {
+                return Err(format!("address handed out for key {} is not the key's stable address", 1_000_000 + r));
+            }
+        }
+    }
     let mut by_key: HashMap<(u8, u64), SocketAddr> = HashMap::new();
     let mut by_addr: HashMap<(u8, SocketAddr), u64> = HashMap::new();
     for h in handles {
